@@ -31,6 +31,10 @@
                    basis of one argument, under a common signed-permutation unitary and under a
                    common Householder reflection (dense, rational unitary); exact sum and product
                    of cos^2 of the principal angles.
+     chordx        the same distance between subspaces of DIFFERENT dimension (3x1 vs 3x2, 4x1 vs
+                   4x3 ...): Frobenius form = (n1+n2)/2 - tr(P_A P_B), symmetric, invariant under a
+                   change of basis of either argument and a common unitary, >= |n1-n2|/2 with
+                   equality exactly for nested subspaces (a third of the cases are nested).
      smw           update_inv_sum_diag, see above.
      conv / ebn0   unit conversions on the decade lattice {m 10^e}: a power 10^k W is 10k dB
                    and 10k+30 dBm; the conversions are mutually inverse; Eb/N0 <-> SNR differ
@@ -78,7 +82,7 @@
    an integer dtype (field `intdtype` of the svd cases asks for that call).               *)
 EXTENDS Integers, Sequences, FiniteSets, TLC, Emit, CMat
 
-CONSTANTS Kind,     \* "projx" "proj" "chord" "smw" "conv" "ebn0" "eig" "svd" "gmd" "whiten" "eigrel"
+CONSTANTS Kind,     \* "projx" "proj" "chord" "chordx" "smw" "conv" "ebn0" "eig" "svd" "gmd" "whiten" "eigrel"
           Seed,     \* seed of the in-spec LCG
           Lo, Hi,   \* case ids Lo..Hi (disjoint ranges run in separate TLC processes)
           Shapes,   \* sequence of <<rows, cols>>; case id uses Shapes[(id % Len(Shapes)) + 1]
@@ -183,12 +187,16 @@ ProjRec(id, A, M) ==
                  num |-> p.num, onum |-> oN, rnum |-> rN,
                  PM |-> XMul(p.num, M), oPM |-> XMul(oN, M), RM |-> XMul(rN, M)]
 
-ProjX(id) == LET sh == ShapeOf(id)  s == Stream(id, 4 * sh[1])
-             IN  ProjRec(id, ExhMat(id, sh[1], sh[2]), GMat(s, 0, sh[1], 2, 2, FALSE))
-ProjS(id) == LET sh == ShapeOf(id)  s == Stream(id, 2 * sh[1] * sh[2] + 4 * sh[1] + 1)
+\* The matrix M that is projected / reflected has 1..rows+2 columns, chosen by the case: fewer, as many
+\* and MORE columns than the basis A, and more columns than rows (wide M) all occur.
+McOf(id, rows) == 1 + ((id \div 3) % (rows + 2))
+ProjX(id) == LET sh == ShapeOf(id)  mc == McOf(id, sh[1])  s == Stream(id, 2 * sh[1] * mc)
+             IN  ProjRec(id, ExhMat(id, sh[1], sh[2]), GMat(s, 0, sh[1], mc, 2, FALSE))
+ProjS(id) == LET sh == ShapeOf(id)  mc == McOf(id, sh[1])
+                 s == Stream(id, 2 * sh[1] * sh[2] + 2 * sh[1] * mc + 1)
                  real == Pick(s[Len(s)], 4) = 0
              IN  ProjRec(id, GMat(s, 0, sh[1], sh[2], Alpha, real),
-                         GMat(s, 2 * sh[1] * sh[2], sh[1], 2, 2, real))
+                         GMat(s, 2 * sh[1] * sh[2], sh[1], mc, 2, real))
 
 Proj == /\ Kind \in {"proj", "projx"} /\ kase = None
         /\ \E id \in Lo..Hi : LET r == IF Kind = "projx" THEN ProjX(id) ELSE ProjS(id)
@@ -266,6 +274,76 @@ ChordAngles          == IsChord => /\ RLe(RZero, kase.cos2prod) /\ RLe(kase.cos2
                                    /\ (kase.d2 = RZero => kase.cos2prod = ROne)
 ChordRange           == IsChord => RLe(RZero, kase.d2)
                                    /\ RLe(kase.d2, R(Min(kase.n, MRows(kase.A) - kase.n)))
+
+(* ------------------------------- chordal distance between subspaces of DIFFERENT dimension --- *)
+\* Shapes holds triples <<rows, n1, n2>>.  d2 = ||P_A - P_B||_F^2 / 2 is defined for any two subspaces;
+\* expanding the square gives the trace form (n1 + n2) / 2 - tr(P_A P_B).  It is symmetric, invariant under
+\* a change of basis of either argument and under a common unitary, at least |n1 - n2| / 2, with equality
+\* exactly when one subspace contains the other.  (Integer bound: the Frobenius sum is
+\* (dA dB)^2 2 d2 <= (dA dB)^2 (n1 + n2), which the shapes offered by the harness keep below 2^31.)
+D2TraceG(pa, pb, n1, n2) == RNorm((n1 + n2) * pa.den * pb.den - 2 * TrNum(pa, pb)[1], 2 * pa.den * pb.den)
+Abs1(x) == IF x < 0 THEN -x ELSE x
+
+ChordXRec(id) ==
+    LET sh == ShapeOf(id)  m == sh[1]  n1 == sh[2]  n2 == sh[3]
+        o  == 2 * m * n1 + 2 * m * n2 + 2 * n1 * n1 + 2 * n2 * n2
+        s  == Stream(id, o + 2 * m + 8)
+        real == Pick(s[o + 2 * m + 1], 4) = 0
+        nested == Pick(s[o + 2 * m + 2], 3) = 0 /\ n1 # n2
+        A  == GMat(s, 0, m, n1, 1, real)
+        B0 == GMat(s, 2 * m * n1, m, n2, 1, real)
+        T1 == GMat(s, 2 * m * n1 + 2 * m * n2, n1, n1, 1, real)
+        T2 == GMat(s, 2 * m * n1 + 2 * m * n2 + 2 * n1 * n1, n2, n2, 1, real)
+        \* nested variant: the smaller subspace is spanned by (signed, permuted) columns of the larger one
+        w  == SPermOf(s[o + 2 * m + 3], m)
+        B  == IF ~nested THEN B0
+              ELSE IF n1 < n2 THEN Fix([i \in 1..m |-> [j \in 1..n2 |-> IF j <= n1 THEN GMul(IPow(w.ph[j]), A[i][n1 + 1 - j]) ELSE B0[i][j]]])
+              ELSE Fix([i \in 1..m |-> [j \in 1..n2 |-> GMul(IPow(w.ph[j]), A[i][n1 + 1 - j])]])
+        pa == ProjND(A)
+        pb == ProjND(B)
+    IN  IF pa.den = 0 \/ pb.den = 0 \/ GIsZero(MDet(T1)) \/ GIsZero(MDet(T2)) THEN [valid |-> FALSE]
+        ELSE LET AT == XMul(A, T1)
+                 BT == XMul(B, T2)
+                 u  == SPermOf(s[o + 2 * m + 4], m)
+                 UA == SPerm(u.perm, u.ph, A)
+                 UB == SPerm(u.perm, u.ph, B)
+                 v0 == GMat(s, o, m, 1, 1, real)
+                 v  == IF Nnz(v0) < 2 THEN Fix([i \in 1..m |-> <<GOne>>]) ELSE v0
+                 nu == IntFrob(v)
+                 Rh == XSub(IDiag(m, nu), IScale(2, XMul(v, XHerm(v))))
+                 pat == ProjND(AT)
+                 pbt == ProjND(BT)
+             IN [valid |-> TRUE, kind |-> "chordx", id |-> id, rows |-> m, n1 |-> n1, n2 |-> n2, nested |-> nested,
+                 A |-> A, B |-> B, AT |-> AT, BT |-> BT, UA |-> UA, UB |-> UB, HA |-> XMul(Rh, A), HB |-> XMul(Rh, B),
+                 Rh |-> Rh, hnu |-> nu,
+                 d2 |-> D2Frob(pa, pb),                               \* the definition
+                 d2tr |-> D2TraceG(pa, pb, n1, n2),
+                 d2ba |-> D2Frob(pb, pa),
+                 d2atb |-> D2TraceG(pat, pb, n1, n2),
+                 d2abt |-> D2TraceG(pa, pbt, n1, n2),
+                 d2u |-> D2Frob(ProjND(UA), ProjND(UB)),
+                 \* sum of cos^2 of the min(n1, n2) principal angles = ||Q1^H Q2||_F^2 = tr(P_A P_B)
+                 cos2sum |-> RNorm(TrNum(pa, pb)[1], pa.den * pb.den),
+                 \* B inside A or A inside B  <=>  the smaller projector is absorbed by the larger one
+                 contained |-> IF n1 <= n2 THEN XMul(pb.num, pa.num) = IScale(pb.den, pa.num)
+                               ELSE XMul(pa.num, pb.num) = IScale(pa.den, pb.num)]
+
+ChordX == /\ Kind = "chordx" /\ kase = None
+          /\ \E id \in Lo..Hi : LET r == ChordXRec(id) IN r.valid /\ kase' = r
+
+IsChordX == kase.kind = "chordx"
+ChordXFormsAgree      == IsChordX => kase.d2 = kase.d2tr
+ChordXSymmetric       == IsChordX => kase.d2ba = kase.d2
+ChordXBasisInvariant  == IsChordX => kase.d2atb = kase.d2 /\ kase.d2abt = kase.d2
+ChordXUnitaryInvariant == IsChordX => /\ kase.d2u = kase.d2
+                                      /\ XMul(kase.Rh, kase.Rh) = IDiag(kase.rows, kase.hnu * kase.hnu)
+ChordXRange           == IsChordX => LET lowest == <<Abs1(kase.n1 - kase.n2), 2>> IN
+                            /\ RLe(RNorm(lowest[1], 2), kase.d2)
+                            /\ RLe(kase.d2, RNorm(kase.n1 + kase.n2, 2))
+                            /\ RLe(kase.d2, RNorm(2 * kase.rows - kase.n1 - kase.n2, 2))
+                            /\ (kase.contained <=> kase.d2 = RNorm(lowest[1], 2))       \* equality iff nested
+                            /\ (kase.nested => kase.contained)
+                            /\ RLe(RZero, kase.cos2sum) /\ RLe(kase.cos2sum, R(Min(kase.n1, kase.n2)))
 
 (* ------------------------------------- update_inv_sum_diag: Sherman-Morrison sweep --- *)
 \* State: the inverse of A + D_k kept as adjugate num over determinant delta (Gaussian
@@ -574,7 +652,7 @@ IsEigRel == kase.kind = "eigrel"
 EigRelInput == IsEigRel => kase.H = XHerm(kase.H) /\ kase.tr >= MRows(kase.H) /\ kase.n \in 1..MRows(kase.H)
 
 (* ------------------------------------------------------------------------ machine --- *)
-Next == Proj \/ Chord \/ SmwPick \/ SmwStep \/ Conv \/ Eb \/ Eig \/ Svd \/ Gmd \/ Whiten \/ EigRel
+Next == Proj \/ Chord \/ ChordX \/ SmwPick \/ SmwStep \/ Conv \/ Eb \/ Eig \/ Svd \/ Gmd \/ Whiten \/ EigRel
 
 \* ACTION_CONSTRAINT: print the case reached by this step (with all expected observables)
 Emit == EmitCase(kase')
